@@ -47,6 +47,9 @@ class EngineACheck(Check):
         warnings.filterwarnings("ignore", category=RuntimeWarning)
         schedsim.template_db()
 
+    def begin_case(self) -> None:
+        schedsim.reset_generation()
+
     def fill(self, out: RunOutcome, w: World, prog: Optional[Program],
              extra_key: str = "") -> None:
         out.steps += w.steps
